@@ -253,7 +253,7 @@ def judge(module, cfg, records, *, name, shards=16, env=None, timeout=1800, heap
             v = json.loads(json.loads(s)) if s.startswith('"') else json.loads(s)
             v["index"] = buckets[j][v["tid"] - 1]
             rej.append(v)
-        for tag in ("F", "S"):
+        for tag in ("F", "F2", "S"):
             for s in r.printed(tag):
                 v = json.loads(json.loads(s)) if s.startswith('"') else json.loads(s)
                 v["index"] = buckets[j][v["tid"] - 1]
@@ -331,12 +331,20 @@ class Report:
 
     def finish(self):
         known = [k for k in load_known() if k["property"] == self.pid]
-        ksig = {k["signature"]: k for k in known}
+        ksig = {k["signature"]: k for k in known if "signature" in k}
+        kre = [(re.compile(k["signature_re"] + "$"), k) for k in known if "signature_re" in k]
         hits = {}
         violations = []
         for r in self.rejections:
-            if r["signature"] in ksig:
-                hits.setdefault(r["signature"], []).append(r)
+            sig = r["signature"] or ""
+            if sig in ksig:
+                hits.setdefault(sig, []).append(r)
+                continue
+            for rx, k in kre:
+                if rx.match(sig):
+                    ksig[k["signature_re"]] = k
+                    hits.setdefault(k["signature_re"], []).append(r)
+                    break
             else:
                 violations.append(r)
         for sig, rs in sorted(hits.items()):
